@@ -9,7 +9,8 @@ SUBS = ["I_R", "divU", "gradp", "p", "state"]
 
 
 def gen_chk(seed, path, nspecies=3, nghost=None, aniso=True, time=None, nlevels=None, bf=4,
-            base_blocks=(1, 3), zero_y=False, header_int=None, origin=None, no_coord=False, scale=False):
+            base_blocks=(1, 3), zero_y=False, header_int=None, origin=None, no_coord=False, scale=False,
+            extreme_vals=False):
     rng = random.Random(seed)
     nprng = np.random.default_rng(seed)
     if scale:      # one box of a million cells (a state FAB of more than 4 million values) beside a thin one
@@ -67,8 +68,24 @@ def gen_chk(seed, path, nspecies=3, nghost=None, aniso=True, time=None, nlevels=
                 if sub == "state":
                     a[..., 0:3] -= 0.6          # velocities of both signs
                     a[..., -2] *= 1500.0        # temp
+                    if zero_y:                  # cells where every species is exactly zero (covered by an embedded boundary)
+                        zc = nprng.random(shp[:-1]) < 0.05
+                        zc[tuple(s // 2 for s in shp[:-1])] = True
+                        a[zc, 4:4 + nspecies] = 0.0
                 if sub in ("gradp", "I_R"):
                     a -= 0.6
+                    if extreme_vals:
+                        # extrema that are negative numbers with three-digit exponents (a vanishing negative rate, an
+                        # all-negative gradient that almost vanishes in one cell, a huge outlier): 24 characters in
+                        # the "%.16e" text of a min/max table
+                        c0 = a[..., 0]
+                        c0[...] = np.abs(c0) + 0.1
+                        c0.reshape(-1)[int(nprng.integers(0, c0.size))] = -4.2e-113        # the minimum
+                        cl = a[..., nc - 1]
+                        cl[...] = -(np.abs(cl) + 0.1)
+                        cl.reshape(-1)[int(nprng.integers(0, cl.size))] = -6.0e-105        # the maximum
+                        if nc > 2:
+                            a[..., 1].reshape(-1)[int(nprng.integers(0, c0.size))] = -7.5e+120
                 data.append(np.asfortranarray(a))
             offsets = [None] * nb
             handles = {}
